@@ -17,6 +17,10 @@ var c04Progs = []string{
 	`{("a","b"):1}`, `{a:(1,2)}`, `{(.|tostring):1}`, `[1,2,.] | length`, `["a","b"] | join(",")`, `[3,1,2] | sort`,
 	`{a:1} | to_entries`, `[{a:1}] | .[0].a = 2`, `[1,2] as [$a,$b] | {a:$a,b:$b}`, `{a:1} as {a:$x} | [$x]`, `[1,[2]] | flatten`,
 	`[1,2] | .[0] |= empty`, `[1,2,3] | .[1:] |= map(.*2)`, `{a:[1,2]} | .a[0] |= .+1`, `[[1,2],[3,4]] | .[][0] |= 9`,
+	// literal folding through parentheses, suffixes on literals
+	`[(1,.|2)]`, `[(1,2|3)]`, `[(.,1|2)]`, `[(1|2)]`, `[(1,2)]`, `[(1,(2|3))]`, `[((1,2)|3)]`, `{a:(1,2|3)}`, `{a:(1|2)}`, `{(1|"a"):2}`, `[1,(2|3),4]`, `[(1,2),(3|4)]`,
+	`.["abc"[1:]]?`, `.["a"[0:1]]?`, `.["ab"[1:]]?`, `.[0[0]?]?`, `.[1[0]?]?`, `.["a" | .]?`, `.[("a")]?`, `.[("a","b")]?`, `."a"[0:1]?`, `.[-1[0]?]?`, `.[1:"2"[0]?]?`,
+	`-1[0]`, `-1[0]?`, `[-1[0]?]`, `-1 | .[0]?`, `- 1[0]?`, `-(1[0]?)`, `[-1[0]?, 2]`, `.[-1[0]?]?`, `-"a"[0:1]?`, `-[1][0]`, `-{a:1}.a`, `+1[0]?`, `-1.5[0]?`, `-1?`, `-1 as $x | $x`,
 	// signed numbers
 	`-1`, `- 1`, `-(1)`, `.[-1]`, `-1 + .`, `[-1, - 2]`, `-.`, `+1`, `+.`, `-1.5`, `-0`, `[.[-1], .[-2]]`, `.[-1:]`, `.[:-1]`, `- .a`, `-(.a // 1)`,
 	`-9223372036854775808`, `-(9223372036854775807) - 1`, `[.[] | -.]`,
